@@ -469,7 +469,7 @@ type vfDiscard struct{}
 
 func (vfDiscard) Write(p []byte) (int, error) { return len(p), nil }
 
-const c09Rule = "convergence: 2-3 real shardManagerImpl instances that know each other (full state exchange first; in 30% of the histories some directed pairs have not exchanged state yet, so a node can leave before its first snapshot or announcement arrives), 1-2 shards; rapid histories of register / unregister (stream ended) / deliver(any captured real announcement to any recipient the code selected, also repeatedly) / pushpull(current or stale LocalState snapshot through MergeRemoteState) / leave(real NotifyLeave on the others); fairness epilogue: every announcement delivered at least once to every live recipient, then a fresh exchange between every live pair; oracle: per shard at most one live owner and, if a stream is still open, the owner is the node with the newest RegisterShard; nodes that left own nothing in anyone's remote view; remote views equal the others' local sets. routing: every combination of {local stream: none / room / full / closed-but-registered} x {remote owner: unknown / known without address / known with registered peer stream / known but stream missing} x {shutdown signalled} x {message, ack, ack without forwarding} through the real Deliver*ToShardOwner; oracle: truth table from the statement, exactly one recipient when true, none when false; non-trivial (convergence) = an older claim delivered after a newer one for the same shard, or a duplicate / stale snapshot after a leave; distinct = distinct histories"
+const c09Rule = "convergence: 2-3 real shardManagerImpl instances that know each other, 1-2 shards or (one case in twelve) 72 shards with 50-70 of them held by one instance (full state exchange first; in 30% of the histories some directed pairs have not exchanged state yet, so a node can leave before its first snapshot or announcement arrives), 1-2 shards; rapid histories of register / unregister (stream ended) / deliver(any captured real announcement to any recipient the code selected, also repeatedly) / pushpull(current or stale LocalState snapshot through MergeRemoteState) / leave(real NotifyLeave on the others); fairness epilogue: every announcement delivered at least once to every live recipient, then a fresh exchange between every live pair; oracle: per shard at most one live owner and, if a stream is still open, the owner is the node with the newest RegisterShard; nodes that left own nothing in anyone's remote view; remote views equal the others' local sets. routing: every combination of {local stream: none / room / full / closed-but-registered} x {remote owner: unknown / known without address / known with registered peer stream / known but stream missing} x {shutdown signalled} x {message, ack, ack without forwarding} through the real Deliver*ToShardOwner; oracle: truth table from the statement, exactly one recipient when true, none when false; non-trivial (convergence) = an older claim delivered after a newer one for the same shard, or a duplicate / stale snapshot after a leave; distinct = distinct histories"
 
 func c09Gen(t *rapid.T) c09Case {
 	c := c09Case{Nodes: rapid.IntRange(2, 3).Draw(t, "nodes"), Shards: rapid.IntRange(1, 2).Draw(t, "shards")}
@@ -477,6 +477,15 @@ func c09Gen(t *rapid.T) c09Case {
 		c.SkipInit = rapid.IntRange(1, 511).Draw(t, "skipInit")
 	}
 	n := rapid.IntRange(2, vfshared.Scale(24, 40)).Draw(t, "nops")
+	if rapid.IntRange(0, 11).Draw(t, "manyShards") == 0 {
+		// one case in twelve: a realistic number of shards - one instance holds the streams of 50-70 shards before the
+		// generated history starts (the state it exchanges with its peers has to carry all of them)
+		c.Shards = 72
+		big := rapid.IntRange(0, c.Nodes-1).Draw(t, "bigNode")
+		for k := rapid.IntRange(50, 70).Draw(t, "bigCount"); k > 0; k-- {
+			c.Ops = append(c.Ops, c09Op{K: "register", Node: big, Shard: k})
+		}
+	}
 	for i := 0; i < n; i++ {
 		x := rapid.IntRange(0, 99).Draw(t, "op")
 		node := rapid.IntRange(0, c.Nodes-1).Draw(t, "node")
